@@ -297,6 +297,10 @@ def harness_cmd(h, playback=False, failed=()):
     if playback:
         cmd += ["-Z", "concrete-playback", "--concrete-playback=print"]
     cmd += ["--harness", h.module + "::" + h.name, "--exact"]
+    if playback:
+        # Kani's playback mode does not slice the formula (41 M instead of 1.2 M variables on a ring-buffer harness:
+        # out of memory, no test generated); slicing only leaves inputs irrelevant to the failing check unconstrained
+        cmd += ["--cbmc-args", "--slice-formula"]
     return cmd
 
 
